@@ -1,6 +1,6 @@
 (* Inst.v — the model instantiated with the tables measured on the current sources (Gen.v is
    regenerated on every run). *)
-Require Export Obs.
+Require Export Observers.
 Require Gen.
 Local Open Scope Z_scope.
 
@@ -13,3 +13,24 @@ Definition step_u := step conv_u lut_g.
 Definition step_n := step conv_n lut_g.
 Definition run_u := run conv_u lut_g.
 Definition run_n := run conv_n lut_g.
+
+(* the observer of property C<n>, instantiated with the measured tables *)
+Definition observer (conv : Z -> Z) (n : Z)
+  : list op -> snapshot -> snapshot -> list event -> Z -> bool :=
+  if n =? 1 then obs_C01
+  else if n =? 2 then obs_C02 conv
+  else if n =? 4 then obs_C04
+  else if n =? 6 then obs_C06 conv
+  else if n =? 7 then obs_C07
+  else if n =? 8 then obs_C08
+  else if n =? 9 then obs_C09 lut_g
+  else if n =? 10 then obs_C10
+  else if n =? 11 then obs_C11 lut_g
+  else if n =? 12 then obs_C12
+  else if n =? 14 then obs_C14
+  else if n =? 15 then obs_C15
+  else if n =? 16 then obs_C16 conv
+  else if n =? 17 then obs_C17
+  else fun _ _ _ _ _ => true.
+Definition observer_u := observer conv_u.
+Definition observer_n := observer conv_n.
